@@ -1390,19 +1390,24 @@ def check_reconstruct(prog: Program) -> list[Result]:
     except Exception as e:
         return [Result(prog.name + "|pickle", SKIPPED, "", f"program does not build: {type(e).__name__}")]
     forms = {"logical": lambda: q, "optimized": lambda: new_collection(optimize(q.expr)), "lowered": lambda: new_collection(q.expr.lower_completely())}
+    # phase 1 (sending process): build every form, record what it reports, pickle it
+    sent = {}
     for form, mk in forms.items():
         name = f"{prog.name}|pickle|{form}"
-        sig = _sig(prog, "pickle|" + form)
         try:
             coll = mk()
             want = (coll._name, _labels_of_meta(coll._meta), tuple(coll.divisions), coll.npartitions)
             ref = concrete(coll.expr)
-            blob = pickle.dumps(coll)
+            sent[form] = (want, ref, pickle.dumps(coll))
         except Exception as e:
             out.append(Result(name, SKIPPED, "", f"form cannot be built/pickled: {type(e).__name__}: {str(e)[:100]}"))
-            continue
-        saved = (dict(_sh.divisions_lru.data), dict(_rp.mem_usages_lru.data))
-        try:
+    # phase 2 (receiving process): no live expression, empty singleton table, empty caches
+    del q
+    saved = (dict(_sh.divisions_lru.data), dict(_rp.mem_usages_lru.data))
+    try:
+        for form, (want, ref, blob) in sent.items():
+            name = f"{prog.name}|pickle|{form}"
+            sig = _sig(prog, "pickle|" + form)
             _sh.divisions_lru.data.clear()
             _rp.mem_usages_lru.data.clear()
             Expr._instances.clear()
@@ -1413,15 +1418,15 @@ def check_reconstruct(prog: Program) -> list[Result]:
             except Exception as e:
                 out.append(Result(name, VIOLATION, sig, f"received collection fails: {type(e).__name__}: {str(e)[:200]}", {"engine": "P", "program": prog.name, "stage": "pickle|" + form}))
                 continue
-        finally:
-            _sh.divisions_lru.data.update(saved[0])
-            _rp.mem_usages_lru.data.update(saved[1])
-        if got != want:
-            out.append(Result(name, VIOLATION, sig, f"name/schema/divisions differ after the round trip: {want} vs {got}", {"engine": "P", "program": prog.name, "stage": "pickle|" + form}))
-            continue
-        same, msg = conc.same_pandas(ref, res, prog.ordered, prog.check_index)
-        if not same:
-            out.append(Result(name, VIOLATION, sig, f"result differs after the round trip: {msg}", {"engine": "P", "program": prog.name, "stage": "pickle|" + form}))
-        else:
-            out.append(Result(name, HELD, "", "same name, schema, divisions and result in a clean environment", queries=1))
+            if got != want:
+                out.append(Result(name, VIOLATION, sig, f"name/schema/divisions differ after the round trip: {want} vs {got}", {"engine": "P", "program": prog.name, "stage": "pickle|" + form}))
+                continue
+            same, msg = conc.same_pandas(ref, res, prog.ordered, prog.check_index)
+            if not same:
+                out.append(Result(name, VIOLATION, sig, f"result differs after the round trip: {msg}", {"engine": "P", "program": prog.name, "stage": "pickle|" + form}))
+            else:
+                out.append(Result(name, HELD, "", "same name, schema, divisions and result in a clean environment", queries=1))
+    finally:
+        _sh.divisions_lru.data.update(saved[0])
+        _rp.mem_usages_lru.data.update(saved[1])
     return out
